@@ -173,6 +173,8 @@ def shrink(case):
         yield dict(case, ast=a)
     if case["ast"]["const_bounds"]:
         yield dict(case, ast=dict(case["ast"], const_bounds=False))
+    elif case["ast"].get("dyn_ub"):
+        yield dict(case, ast=dict(case["ast"], dyn_ub=False))
 
 
 def sample_of(case):
